@@ -1,8 +1,10 @@
 import os, sys
 sys.path.insert(0, os.path.join(os.path.dirname(os.path.abspath(__file__)), '..', 'lib'))
 sys.path.insert(0, os.path.dirname(os.path.abspath(__file__)))
-import vlib, flow
+import vlib, flow, gen_trans
 import pt_common as pc
+
+gen_trans.register('mm_vmm.json')   # Go -> Gallina translation of the pageTableEntry / Frame / Page helpers (Gen/Trans_mm_vmm.v, used by Vmm/PtTrans.v)
 from pt_common import LO, P, RW, M64, M36, KOFF, TEMP
 
 
@@ -18,10 +20,12 @@ class C05(flow.Spec):
             'combinations, sections below the kernel offset, zero-size sections, several kernel offsets; allocator failure at the k-th '
             'call; out-of-quantifier tables (sections sharing a page, touching the reserved range) as agreement-only cases; '
             'non-trivial = setupPDTForKernel succeeded with at least one mapped section; distinct = distinct cases')
-    assumptions = ['physical memory and the MMU are simulated by the harness (see C04)',
-                   'visitElfSectionsFn seam stands for multiboot.VisitElfSections (zero-size sections are dropped there; modelled in C10)',
-                   'frames handed out by the allocator are fresh (C01)',
-                   'PageDirectoryTable.Map dereferences the active root\'s physical address (identity-mapped in the kernel during boot)']
+    assumptions = [
+        'physical memory and the MMU are simulated by the harness (see C04)',
+        'visitElfSectionsFn seam stands for multiboot.VisitElfSections (zero-size sections are dropped there; modelled in C10)',
+        'theorem domain: section pages outside top-level slot 511, section frames below 2^40, reserved range [earlyReserveLastUsed, tempMappingAddr) page aligned, inside top-level slot 510 and mapped in the boot space, allocator frames fresh (C01), zero-frame guard not yet armed (setupPDTForKernel runs before reserveZeroedFrame)',
+        'sections sharing a page / touching the reserved range: agreement only (model and code both let the later mapping win)',
+        "PageDirectoryTable.Map dereferences the active root's physical address (identity-mapped in the kernel during boot)"]
     partial = []
 
     def gen_cases(self, rng, tier):
